@@ -62,7 +62,13 @@ def kernel_job(job):
     y0 = [z3.Real(f"y0_{i}") for i in range(n)]
     y = SArr([Sym(v) for v in y0])
     hist = bb.DDEHistory(SArr([Sym(v) for v in y0]), t0=0.0)
-    kern = bb.BaseBackend._solve_heun if heun else bb.BaseBackend._solve_euler
+    if job.get('backend', 'base') == 'torch':
+        from .c03 import _kernel
+        kern = _kernel('torch', False)
+        import pyrates.backend.torch.torch_backend as tb
+        tb.float = bb.float
+    else:
+        kern = bb.BaseBackend._solve_heun if heun else bb.BaseBackend._solve_euler
     try:
         rec = kern(func, (hist,), float(dt * steps), float(dt), float(dt), y, 0)
     except Exception as e:   # noqa
@@ -87,7 +93,13 @@ def kernel_job(job):
         for i in range(n):
             v, _ = decide.prove_equal(rec[k, i], Sym(traj[k][i]), tally=tally)
             if v == 'sat':
-                out['violations'].append(dict(what=f"fixed-step DDE run ({'heun' if heun else 'euler'}, delay {tau_steps} "
+                conf = _replay_dde(job, k, i)
+                if conf is None:
+                    tally.sat_spurious += 1
+                    out['inconclusive'].append(dict(what=f"row {k}: solver counterexample not reproduced on floats"))
+                    break
+                tally.sat_confirmed += 1
+                out['violations'].append(dict(real_value=conf[0], iterate=conf[1], what=f"fixed-step DDE run ({job.get('backend', 'base')} {'heun' if heun else 'euler'}, delay {tau_steps} "
                                               f"steps): row {k} is not the method-of-steps iterate with constant "
                                               f"pre-history"))
                 break
@@ -97,18 +109,69 @@ def kernel_job(job):
     return out
 
 
+def _replay_dde(job, k, i):
+    """float replay on the real kernel and the real DDEHistory with g_j(s, y, yd) = -0.7*yd_j + 0.2*sin(y_j + s) + 0.1*j;
+    returns (real, iterate) when they differ"""
+    import importlib
+    import math
+    import pyrates.backend.base.base_backend as bb
+    vars(bb).pop('float', None)
+    n, steps, heun, tau_steps = job['n'], job['steps'], job['heun'], job['tau_steps']
+    dt = 0.25
+    tau = dt * tau_steps
+
+    def g(s, y, yd):
+        return np.array([-0.7 * yd[j] + 0.2 * math.sin(y[j] + s) + 0.1 * j for j in range(n)])
+    y0 = np.linspace(0.4, 0.9, n)
+    try:
+        if job.get('backend', 'base') == 'torch':
+            import torch
+            import pyrates.backend.torch.torch_backend as tb
+            importlib.reload(tb)
+            vars(tb).pop('float', None)
+            hist = bb.DDEHistory(y0.copy(), t0=0.0)
+
+            def f_t(step, y, h, *a):
+                return torch.as_tensor(g(float(step), y.numpy(), np.asarray(h(float(step) * dt - tau))))
+            rec = tb.TorchBackend._solve_euler(f_t, (hist,), dt * steps, dt, dt, torch.as_tensor(y0.copy()), 0)
+        else:
+            hist = bb.DDEHistory(y0.copy(), t0=0.0)
+
+            def f_b(step, y, h, *a):
+                return g(float(step), y, np.asarray(h(float(step) * dt - tau)))
+            kern = bb.BaseBackend._solve_heun if heun else bb.BaseBackend._solve_euler
+            rec = kern(f_b, (hist,), dt * steps, dt, dt, y0.copy(), 0)
+    except Exception as e:   # noqa
+        return (f"raised {type(e).__name__}: {e}", None)
+    traj = [y0.copy()]
+    for s_ in range(steps):
+        cur = traj[-1]
+        past = traj[s_ - tau_steps] if s_ - tau_steps >= 0 else traj[0]
+        f1 = g(float(s_), cur, past)
+        if heun:
+            f2 = g(float(s_), cur + dt * f1, past)
+            traj.append(cur + dt / 2 * (f1 + f2))
+        else:
+            traj.append(cur + dt * f1)
+    got, want = float(np.asarray(rec)[k, i]), float(traj[k][i])
+    if abs(got - want) > 1e-9 * max(1.0, abs(want)):
+        return got, want
+    return None
+
+
 def run(tier='quick', seed=0, only=None, verbose=False):
     rep = Report('C10', tier, seed, 'translation_validation', functions_encoded=FUNCS + [
         'parser._preprocess_dde_syntax (concrete, both notations)', 'ComputeGraph._get_var_hist / add_var_hist emitted '
         'lines x_hist = hist(t[*dt] - d)[idx] (symx, hist = uninterpreted functions)',
         'CircuitIR._add_edge_buffer DDE branch (concrete)',
-        'BaseBackend._solve_euler/_solve_heun + DDEHistory.update/__call__ (symx, uninterpreted delayed vector field)'],
+        'BaseBackend._solve_euler/_solve_heun, TorchBackend._solve_euler + DDEHistory.update/__call__ (symx, uninterpreted delayed vector field)'],
         bounds=dict(delays_per_variable='<=2', delayed_variables='<=2 + delayed edges', solvers='euler (t*dt) and '
                     'scipy-flagged (t)', kernel='steps <= 6/10, delay 1..3 steps, state dim <= 2'),
         stubs=['hist = vector of uninterpreted functions of time', 'float() inside base_backend = identity on symbols'],
         assumptions=['reals for floats', 'convergence of dopri5/solve_ivp to the DDE solution is NOT claimed',
-                     'torch/jax backends refuse or fail loudly on past() models (C20 matrix): not covered here'])
+                     'the JAX fixed-step kernels refuse delayed models (C20 matrix); torch Euler kernel: run level only'])
     progs = families.fam_dde(seed, n=8 if tier == 'quick' else 60)
+    edge_progs = families.fam_dde_edges_fixed()
     if only:
         progs = [p for p in progs if only in p[0]]
     jobs = []
@@ -116,6 +179,11 @@ def run(tier='quick', seed=0, only=None, verbose=False):
         for v in (True, False):
             for solver in ('scipy', 'euler'):
                 jobs.append(dict(key=f"{k}|vec={v}|{solver}", spec=s, vectorize=v, solver=solver))
+    for k, s in edge_progs:
+        if only and only not in k:
+            continue
+        for v in (True, False):
+            jobs.append(dict(key=f"{k}|vec={v}|scipy", spec=s, vectorize=v, solver='scipy'))
     tvjobs.run_tv_jobs(rep, jobs, verbose=verbose, fn=job_fn)
     kj = []
     for steps in ((4, 6) if tier == 'quick' else (3, 5, 8, 10)):
@@ -124,6 +192,9 @@ def run(tier='quick', seed=0, only=None, verbose=False):
                 for n in (1, 2):
                     kj.append(dict(key=f"kernel:steps={steps}:tau={tau_steps}:{'heun' if heun else 'euler'}:n={n}",
                                    steps=steps, tau_steps=tau_steps, heun=heun, n=n))
+                    if not heun:        # the torch backend has its own Euler kernel (and accepts delayed models)
+                        kj.append(dict(key=f"kernel:torch:steps={steps}:tau={tau_steps}:euler:n={n}", steps=steps,
+                                       tau_steps=tau_steps, heun=False, n=n, backend='torch'))
     if only:
         kj = [j for j in kj if only in j['key']]
     for job, outc in runner.run_jobs(kernel_job, kj, timeout=600):
